@@ -18,6 +18,10 @@ PROP = dict(
         dict(driver="mgrconc", binary="zrate", noshrink=True, quick=24, thorough=300, shard=30,
              monitors=["table_bounded", "lifetime_window_bound", "lifetime_penalty_honoured",
                        "host_window_bound_across_evictions", "host_penalty_across_evictions"]),
+        # the table bound under concurrent bursts of NEW hosts on a table just below its bound (small maxBuckets, spin barrier,
+        # table size read at quiescence after every burst); shared with C16
+        dict(driver="mgrburst", binary="zrate", quick=30, thorough=600, shard=40,
+             monitors=["table_bounded"]),
     ],
     partial="IEEE-754: the model computes over Q where the code uses binary64 (tokens/rate compared within 1e-9, a grant decision "
             "within 1e-6 of the threshold is not compared); per-host bounds hold for a bucket's lifetime only - LFU eviction and the "
